@@ -143,7 +143,12 @@ class HxCorr:
         self.pows: set = set()
 
     def add(self, specs, tfs, hcfg, init, ops, rng, meta: Optional[Dict] = None):
-        term, states, err, pw = case_term(specs, tfs, hcfg, init, ops, rng)
+        try:
+            term, states, err, pw = case_term(specs, tfs, hcfg, init, ops, rng)
+        except Exception as e:  # noqa - the implementation's state cannot be written down as a model term
+            self.ctx.corr_disagreements.append({"relation": "check_hx: the implementation's state is outside what the model can express "
+                                                            f"({type(e).__name__}: {e})", "specs": specs, "tfs": tfs, "hcfg": hcfg, "init": init, "ops": ops})
+            return
         if term is None:
             return
         self.terms.append(term)
